@@ -235,7 +235,11 @@ async fn run_history(ctx: &mut Ctx, a: &mut Inst, b: &mut Inst, f: &mut Inst, ki
         }
     }
     let rid = rid.unwrap();
-    let mut head = oks;
+    // deletion requests aimed at the definition: refused, and none of the views below may change
+    let (dels, del_errs) = deletion_attempts(a, &rid, &gids, &steps, &uids).await;
+    if let Some(room) = wait_room(&mut a.rx, &rid, 5).await { live_room = Some(room); }
+    let mut head = dels;
+    head.extend(oks);
     head.extend(decisions(ctx, live_room.as_ref().expect("live room event"), &probes));
     let nfin = strip(a.db.get_room_node(rid).await.unwrap().unwrap());
     let fresh = match f.db.add_room_node(nfin).await {
@@ -245,10 +249,46 @@ async fn run_history(ctx: &mut Ctx, a: &mut Inst, b: &mut Inst, f: &mut Inst, ki
     let chain_dec = match &b_room { Some(room) => { let mut o = vec![1]; o.extend(decisions(ctx, room, &probes)); o } None => vec![0] };
     let ranks = rank_uids(&uids);
     let nev: usize = steps.iter().map(|s| s.evs.len()).sum();
-    let meta = json!({"steps": steps.len(), "events": nev, "fresh_verdict": fresh[0], "chain": chain.clone()});
+    let meta = json!({"steps": steps.len(), "events": nev, "fresh_verdict": fresh[0], "chain": chain.clone(), "deletion_requests": del_errs});
     Pending { burst: false, kind: kind.into(), author: a.key, steps, ranks, gm: group_map(&gids), probes, rid, head, fresh, chain, chain_dec, meta }
 }
 
+
+
+// ------------------------------------------------------------------ deletion requests aimed at the room definition
+pub const NDEL: usize = 9;
+/// deletion requests against the rows and references of the room definition: all must be refused (0); 1 = accepted
+async fn deletion_attempts(a: &Inst, rid: &[u8; 16], gids: &HashMap<u64, [u8; 16]>, steps: &[Step], uids: &[Vec<Option<[u8; 16]>>]) -> (Vec<i64>, Vec<String>) {
+    let mut first: HashMap<u64, (u64, [u8; 16])> = HashMap::new();   // list tag -> (group, row uid)
+    for (st, us) in steps.iter().zip(uids) { for (e, u) in st.evs.iter().zip(us) {
+        if let (Some((tag, g, _)), Some(u)) = (slot(e), u) { first.entry(tag).or_insert((g, *u)); }
+    } }
+    let b = |u: &[u8; 16]| base64_encode(u);
+    let mut reqs: Vec<Option<(String, Vec<(&str, String)>)>> = vec![];
+    reqs.push(first.get(&0).map(|(_, x)| ("delete d { sys.Room { $room admin[$x] } }".to_string(), vec![("room", b(rid)), ("x", b(x))])));
+    reqs.push(gids.values().next().map(|g| ("delete d { sys.Room { $room authorisations[$g] } }".to_string(), vec![("room", b(rid)), ("g", b(g))])));
+    for (tag, field) in [(3u64, "rights"), (1, "users"), (2, "user_admin")] {
+        reqs.push(first.get(&tag).and_then(|(g, x)| gids.get(g).map(|gu| (format!("delete d {{ sys.Authorisation {{ $g {}[$x] }} }}", field), vec![("g", b(gu)), ("x", b(x))]))));
+    }
+    reqs.push(first.get(&1).map(|(_, x)| ("delete d { sys.UserAuth { $x } }".to_string(), vec![("x", b(x))])));
+    reqs.push(first.get(&3).map(|(_, x)| ("delete d { sys.EntityRight { $x } }".to_string(), vec![("x", b(x))])));
+    reqs.push(gids.values().next().map(|g| ("delete d { sys.Authorisation { $g } }".to_string(), vec![("g", b(g))])));
+    reqs.push(Some(("delete d { sys.Room { $room } }".to_string(), vec![("room", b(rid))])));
+    let mut out = vec![];
+    let mut errs = vec![];
+    for r in reqs {
+        match r {
+            None => { out.push(0); errs.push("not applicable".to_string()); }
+            Some((txt, ps)) => {
+                let mut p = Parameters::default();
+                for (k, v) in ps { p.add(k, v).unwrap(); }
+                match a.db.delete(&txt, Some(p)).await { Ok(_) => { out.push(1); errs.push("ACCEPTED".into()); } Err(e) => { out.push(0); errs.push(e.to_string()); } }
+            }
+        }
+    }
+    assert_eq!(out.len(), NDEL);
+    (out, errs)
+}
 
 // ------------------------------------------------------------------ bursts: room mutations in flight together
 fn user_uid(res: &MutationQuery) -> Option<[u8; 16]> {
